@@ -1,23 +1,16 @@
 (* C18 - splitting and joining bundles: extend, take_n_reverts, prepend_state. *)
 From stdpp Require Import gmap.
 From Coq Require Import ZArith.
-From RevmV Require Import Model.Bundle Spec.BundleSpec Spec.BundleHist Proofs.BundleProofs Proofs.BundleWitness.
+From RevmV Require Import Model.Bundle Spec.BundleSpec Spec.BundleHist Spec.BundleSplit Proofs.BundleProofs
+  Proofs.BundleProofsExt Proofs.BundleWitness.
 Local Open Scope Z_scope.
 
-(* A split is clean when no account of the second part starts in a destroyed status (the second
-   bundle is not built on a cache that already destroyed the account during the first part). *)
-Fixpoint starts_destroyed (seen : list Z) (l : list (Z * tacc)) : bool :=
-  match l with
-  | [] => false
-  | (a, t) :: r =>
-      if existsb (Z.eqb a) seen then starts_destroyed seen r
-      else was_destroyed (t_pstatus t) || starts_destroyed (a :: seen) r
-  end.
-Definition CleanSplit (g2 : list (list txout)) : Prop := starts_destroyed [] (flat g2) = false.
+(* A split is clean when no account of the second part starts in a destroyed status
+   (Spec/BundleSplit.v: CleanSplit g2 := starts_destroyed [] (flat g2) = false). *)
 
-(* Full statement for the post-state changeset (NOT proved; tested at every split point by
-   Corr/C18.v): on clean splits the joined bundle describes the final state.  Without CleanSplit
-   it is false (C18_extend_changeset_refuted). *)
+(* Full statement for the post-state changeset (PROVED below, C18_extend_changeset; also tested at
+   every split point by Corr/C18.v): on clean splits the joined bundle describes the final state.
+   Without CleanSplit it is false (C18_extend_changeset_refuted). *)
 Definition C18_statement_extend : Prop :=
   forall p0 g1 g2 b1 b2 (known : bool),
     HistOK p0 (g1 ++ g2) -> CleanSplit g2 ->
@@ -25,6 +18,16 @@ Definition C18_statement_extend : Prop :=
     plain_equiv (apply_changeset (to_plain_state (extend b1 b2) known) p0) (plain_after p0 (g1 ++ g2)).
 (* The per-group pre-values of the joined bundle are false even on clean splits
    (C18_extend_marker_refuted), and false on unclean ones (C18_extend_prevalues_refuted). *)
+
+(* For ALL TransOK histories, ALL split points that are clean, all groupings of both parts, both
+   OriginalValuesKnown settings.  Proof (Proofs/BundleProofsExt.v): the second bundle is built from
+   the history state at the split; addresses with a destroyed status there are never touched
+   (clean_untouched), for all others the per-cell preservation of C16 applies relative to the
+   state at the split (binvF_history); extend's first loop empties a storage only where the second
+   bundle ends destroyed (extend_fold_state, rinv); extend_state per address and per
+   (destroyed / not destroyed) status of the newer entry (extend_acct). *)
+Theorem C18_extend_changeset : C18_statement_extend.
+Proof. exact extend_changeset. Qed.
 
 (* proved: take_n_reverts returns the first n groups and leaves the rest; nothing else changes;
    n beyond the number of groups takes them all *)
@@ -65,7 +68,7 @@ Theorem C18_extend_changeset_refuted :
     ~ plain_equiv (apply_changeset (to_plain_state (extend b1 b2) false) p0) (plain_after p0 (g1 ++ g2)).
 Proof.
   exists pe, w2a, w2b, bw2a, bw2b.
-  split; [split; [exact pe_wf | vm_compute; reflexivity]|].
+  split; [split; [exact pe_wf | split; [exact pe_nocode | vm_compute; reflexivity]]|].
   split; [apply bof_some; vm_compute; reflexivity|]. split; [apply bof_some; vm_compute; reflexivity|].
   intros [_ H]. specialize (H 1 2). vm_compute in H. discriminate.
 Qed.
@@ -84,7 +87,7 @@ Theorem C18_extend_prevalues_refuted :
     stor_get (apply_plain_revert p0 rj (plain_after p0 (g1 ++ g2))) 1 2 = 0.
 Proof.
   exists pe, w2a, w3b, bw2a, bw3b, bw23.
-  split; [split; [exact pe_wf | vm_compute; reflexivity]|].
+  split; [split; [exact pe_wf | split; [exact pe_nocode | vm_compute; reflexivity]]|].
   split; [apply bof_some; vm_compute; reflexivity|]. split; [apply bof_some; vm_compute; reflexivity|].
   split; [apply (bof_some (w2a ++ w3b)); vm_compute; reflexivity|].
   split; [|split]; vm_compute; reflexivity.
@@ -106,7 +109,7 @@ Theorem C18_extend_marker_refuted :
     stor_get (apply_plain_revert p0 rj (plain_after p0 (g1 ++ g2))) 1 3 = 0.
 Proof.
   exists pe, w4a, w4b, bw4a, bw4b, bw4.
-  split; [split; [exact pe_wf | vm_compute; reflexivity]|].
+  split; [split; [exact pe_wf | split; [exact pe_nocode | vm_compute; reflexivity]]|].
   split; [vm_compute; reflexivity|].
   split; [apply bof_some; vm_compute; reflexivity|]. split; [apply bof_some; vm_compute; reflexivity|].
   split; [apply (bof_some (w4a ++ w4b)); vm_compute; reflexivity|].
@@ -117,6 +120,6 @@ Qed.
 Example C18_clean_split_satisfiable :
   HistOK pe (w4a ++ w4b) /\ CleanSplit w4b /\ is_Some (bundle_of true w4a) /\ is_Some (bundle_of true w4b).
 Proof.
-  split; [split; [exact pe_wf | vm_compute; reflexivity]|].
+  split; [split; [exact pe_wf | split; [exact pe_nocode | vm_compute; reflexivity]]|].
   split; [vm_compute; reflexivity|]. split; [exists bw4a|exists bw4b]; apply bof_some; vm_compute; reflexivity.
 Qed.
